@@ -727,6 +727,8 @@ def child_handle(case: Any) -> Any:
         return modelops.op_inputmut(case)
     if op == "libedit":
         return modelops.op_libedit(case)
+    if op in ("dumporder", "methods", "eqprobe", "helper", "helpers"):
+        return modelops.child_handle(case)
     if op == "drive":
         d = DRIVERS.get(case["site"])
         if d is None:
